@@ -81,20 +81,10 @@ func (h *inFlightRequestsHandler) onOutgoingFrameEnqueued(f *frame.Frame) (InFli
 			f.Header.StreamId = streamId
 		}
 	}
-	h.inFlightLock.RLock()
-	if len(h.inFlight) == h.maxInFlight {
-		err = fmt.Errorf("%v: too many in-flight requests: %v", h, h.maxInFlight)
-	} else if _, found := h.inFlight[streamId]; found {
-		err = fmt.Errorf("%v: stream id already in use: %d", h, streamId)
-	}
-	h.inFlightLock.RUnlock()
-	if err == nil {
-		var inFlight *inFlightRequest
-		inFlight, err = h.addInFlight(streamId, managedStreamId)
-		if err == nil {
-			inFlight.startTimeout()
-			return inFlight, nil
-		}
+	var inFlight *inFlightRequest
+	if inFlight, err = h.addInFlight(streamId, managedStreamId); err == nil {
+		inFlight.startTimeout()
+		return inFlight, nil
 	}
 	if managedStreamId {
 		// the request was not registered: return the borrowed stream id to the pool
@@ -136,6 +126,10 @@ func (h *inFlightRequestsHandler) addInFlight(streamId int16, managedStreamId bo
 	defer h.inFlightLock.Unlock()
 	if h.isClosed() {
 		return nil, fmt.Errorf("%v: handler closed", h)
+	} else if len(h.inFlight) == h.maxInFlight {
+		return nil, fmt.Errorf("%v: too many in-flight requests: %v", h, h.maxInFlight)
+	} else if _, found := h.inFlight[streamId]; found {
+		return nil, fmt.Errorf("%v: stream id already in use: %d", h, streamId)
 	}
 	h.inFlight[streamId] = inFlight
 	return inFlight, nil
